@@ -90,6 +90,101 @@ def decode_vcs() -> List[core.VC]:
     return vcs
 
 
+def aggr_vcs(with_allowlist: bool) -> List[core.VC]:
+    """_aggr_gpu_kernel_time executed relationally: T = one row per kernel name (assumed groupby contract), sorted by total
+    duration with positions as labels; the relabelling rules; the result = named rows of T (projected, unchanged) followed by
+    the aggregate of the relabelled rows.  Conservation then follows from the partition obligation, the assumed aggregate
+    contract (others.sum = sum of the relabelled rows' sums) and the Lean lemma sum_filter_add_sum_filter_not."""
+    from hv import framevc as fv
+
+    f = extract.get_function(BA, "BreakdownAnalysis._aggr_gpu_kernel_time")
+    fq = [f.fq]
+    tagv = "allowlist" if with_allowlist else "no_allowlist"
+    name = f"{PROP}.aggr.{tagv}"
+    ex = pyvc.Exec(consts=extract.module_constants(BA), name=name)
+    fv.install(ex)
+    df = fv.SymDF.base("kern", {"name": (z3.StringSort(), False, "str"), "dur": (z3.IntSort(), False, "int")})
+    nk = z3.Int("num_kernels")
+    ratio = z3.Real("duration_ratio")
+    allow = pyvc.SymSet(z3.StringSort(), "allowlist_names") if with_allowlist else None
+    pre = [nk >= 1, ratio > 0, ratio <= 1]
+    outs = ex.run_function(extract.stripped(f), {"cls": None, "gpu_kernel_time": df, "num_kernels": nk, "duration_ratio": ratio, "allowlist_names": allow}, list(pre))
+    tables = ex.__dict__.get("_agg_tables", [])
+    if not tables:
+        raise pyvc.Unsupported("no groupby(...)[...].agg([...]) table was built")
+    T0 = tables[0]
+    src, key0, col0 = T0.agg_source
+    if src is not df or key0 != "name" or col0 != "dur" or sorted(T0.agg_of) != ["max", "mean", "min", "std", "sum"]:
+        raise pyvc.Unsupported("the first aggregate is not groupby(name)[dur].agg([sum, max, min, mean, std]) of the input")
+    g = df.uni.skolem("g")
+    kname = to_z3(df.cols["name"].val(g))
+    stats = ["sum", "max", "min", "mean"]
+    anyname = z3.String("any_name")
+    # WF5 (durations are non-negative) + the sum contract: a per-name total is non-negative (the code's "always false" mask `sum < 0` relies on it)
+    ex.facts.append(z3.ForAll([anyname], T0.agg_of["sum"](anyname) >= 0, patterns=[T0.agg_of["sum"](anyname)]))
+    vcs: List[core.VC] = [core.VC(pv.name, pv.hyps + list(ex.facts), pv.goal, "vc", fq, {}, note=pv.note) for pv in ex.vcs]
+    rets = [o for o in outs if o.kind == "ret"]
+    for o in outs:
+        if o.kind == "raise":
+            vcs.append(core.VC(f"{name}.noraise", [to_z3(c) for c in o.pc] + list(ex.facts), z3.BoolVal(False), "vc", fq, {}, note=f"raises {o.exc}"))
+    if len(rets) != 2:
+        raise pyvc.Unsupported(f"expected two return paths (aggregating / not aggregating), found {len(rets)}")
+    seen = set()
+    mv = {"num_kernels": nk, "group_row": g[0], "name": kname}
+    for o in rets:
+        out = o.value
+        hy = [to_z3(c) for c in o.pc] + list(ex.facts)
+        if not isinstance(out, fv.SymDF):
+            raise pyvc.Unsupported("result is not a frame")
+        parts = getattr(out, "concat_parts", None)
+        if parts is None:
+            # not aggregating: the sorted per-name table itself
+            seen.add("plain")
+            tag = f"{name}.plain"
+            if out.uni is not df.uni:
+                raise pyvc.Unsupported("plain result lives on another universe")
+            vcs.append(core.VC(f"{tag}.only_when_few_names", hy, T0.nrows(ex) <= nk, "vc", fq, mv, note="no aggregation exactly when the number of distinct names is at most num_kernels"))
+            vcs.append(core.VC(f"{tag}.rows_are_the_names", hy, to_z3(out.present(g)) == to_z3(T0.present(g)), "vc", fq, mv))
+            vcs.append(core.VC(f"{tag}.row_statistics", hy + [to_z3(out.present(g))],
+                               z3.And(to_z3(out.cols["name"].val(g)) == kname, *[to_z3(out.cols[c].val(g)) == T0.agg_of[c](kname) for c in stats]), "vc", fq, mv))
+            continue
+        seen.add("aggregated")
+        tag = f"{name}.aggregated"
+        if len(parts) != 2 or parts[0].uni is not df.uni or not hasattr(parts[1], "agg_source"):
+            raise pyvc.Unsupported("aggregated result is not concat([named rows of the table, aggregate of the relabelled rows])")
+        A, B = parts
+        S, key1, col1 = B.agg_source
+        if S.uni is not df.uni or key1 != "name" or col1 != "sum":
+            raise pyvc.Unsupported("the second aggregate is not groupby(name)[sum] of a sub-frame of the table")
+        keep = allow.has(kname) if with_allowlist else z3.BoolVal(False)
+        pos = getattr(S, "label", None)
+        vcs.append(core.VC(f"{tag}.columns", hy, z3.BoolVal(list(out.cols) == ["name", "sum", "max", "min", "mean", "std"]), "vc", fq, {}))
+        vcs.append(core.VC(f"{tag}.only_when_many_names", hy, T0.nrows(ex) > nk, "vc", fq, mv))
+        vcs.append(core.VC(f"{tag}.named_rows_are_rows_of_the_name_table", hy + [to_z3(A.present(g))], to_z3(T0.present(g)), "vc", fq, mv))
+        vcs.append(core.VC(f"{tag}.named_row_statistics", hy + [to_z3(A.present(g))],
+                           z3.And(to_z3(A.cols["name"].val(g)) == kname, kname != z3.StringVal("others"), *[to_z3(A.cols[c].val(g)) == T0.agg_of[c](kname) for c in stats]), "vc", fq, mv,
+                           note="a named row's sum / max / min / mean are those of the kernels bearing that name (the per-name aggregate of the input)"))
+        vcs.append(core.VC(f"{tag}.partition", hy + [to_z3(T0.present(g))], z3.Xor(to_z3(A.present(g)), to_z3(S.present(g))), "vc", fq, mv,
+                           note="every name is either reported as a named row or enters the 'others' aggregate, never both (conservation of the sums)"))
+        vcs.append(core.VC(f"{tag}.aggregate_takes_only_names", hy + [to_z3(S.present(g))], z3.And(to_z3(T0.present(g)), to_z3(S.cols["name"].val(g)) == z3.StringVal("others"),
+                                                                                                 to_z3(S.cols["sum"].val(g)) == T0.agg_of["sum"](kname)), "vc", fq, mv))
+        h = df.uni.skolem("h")
+        vcs.append(core.VC(f"{tag}.others_row", hy + [to_z3(B.present(h))], z3.And(to_z3(B.cols["name"].val(h)) == z3.StringVal("others"),
+                                                                                   to_z3(B.cols["sum"].val(h)) == B.agg_of["sum"](z3.StringVal("others"))), "vc", fq, {},
+                           note="the aggregate row is labelled 'others' and its sum is the sum-aggregate of the relabelled rows' sums"))
+        if pos is None:
+            raise pyvc.Unsupported("the table has no positional labels after sorting")
+        vcs.append(core.VC(f"{tag}.at_most_num_kernels_named", hy + [to_z3(A.present(g)), z3.Not(keep)], z3.And(to_z3(pos(g)) >= 0, to_z3(pos(g)) < nk), "vc", fq, mv,
+                           note="a named row outside the allow-list sits at one of the first num_kernels positions of the table sorted by total duration (positions are injective: at most num_kernels such rows)"))
+        g2 = df.uni.skolem("g2")
+        vcs.append(core.VC(f"{tag}.largest_first", hy + [to_z3(T0.present(g)), to_z3(T0.present(g2)), to_z3(pos(g)) < to_z3(pos(g2))],
+                           T0.agg_of["sum"](kname) >= T0.agg_of["sum"](to_z3(df.cols["name"].val(g2))), "vc", fq, mv, note="positions follow descending total duration"))
+        vcs.append(core.VC(f"{tag}.guard.reachable", hy + [to_z3(A.present(g)), to_z3(S.present(g2))], z3.BoolVal(False), "vacuity", fq))
+    if seen != {"plain", "aggregated"}:
+        raise pyvc.Unsupported(f"return paths found: {sorted(seen)}")
+    return vcs
+
+
 def _bit(exq, op, a, b):
     sym, c = (a, b) if pyvc.is_sym(a) else (b, a)
     if not isinstance(op, ast.BitAnd) or pyvc.is_sym(c) or not isinstance(c, int) or c <= 0 or (c & (c - 1)) != 0:
@@ -157,6 +252,9 @@ def _case(arg) -> Dict[str, Any]:
     from hv import gen, rt
 
     kw = dict(n_streams=2 + seed % 2, steps=seed % 3, p_zero_kernel=0.1, n_top=3 + seed % 3, p_launch=0.85, p_memcpy=0.3)
+    if seed % 5 in (3, 4):
+        # ranks whose kernels are all of ONE analysed type, overlapping across three streams (no other type to overlap with)
+        kw.update(only_kernel_type="compute" if seed % 5 == 3 else "comm", n_streams=3, p_same_ts_kernel=0.6)
     per_rank = gen.gen_trace_set(seed, n_ranks=1 + seed % 2, **kw)
     fails: List[Dict[str, Any]] = []
     n = 0
@@ -277,7 +375,10 @@ def bounded_aggr(ctx):
 
 def units(ctx):
     return [core.Unit(f"{PROP}.merge_kernel_intervals", lambda: mc.merge_vcs(PROP), [UT + ".merge_kernel_intervals"]),
-            core.Unit(f"{PROP}.type_time.decode", decode_vcs, [BA + ".BreakdownAnalysis._get_gpu_kernel_type_time"])]
+            core.Unit(f"{PROP}.merge_kernel_intervals.stale_helper_columns", lambda: mc.merge_vcs(PROP, stale=True), [UT + ".merge_kernel_intervals"]),
+            core.Unit(f"{PROP}.type_time.decode", decode_vcs, [BA + ".BreakdownAnalysis._get_gpu_kernel_type_time"]),
+            core.Unit(f"{PROP}.aggr.no_allowlist", lambda: aggr_vcs(False), [BA + ".BreakdownAnalysis._aggr_gpu_kernel_time"]),
+            core.Unit(f"{PROP}.aggr.allowlist", lambda: aggr_vcs(True), [BA + ".BreakdownAnalysis._aggr_gpu_kernel_time"])]
 
 
 SPEC = Spec(
